@@ -278,6 +278,41 @@ def check_counts_init(ctx, num=3):
            incs[0] if incs else ini.node, construct="state_counts[PENDING] += 1 per operator", detail=d)
 
 
+def check_status_identity(ctx, num=3):
+    """A pipeline has one runtime status for its whole life: it is created on first use and never replaced or dropped (a second
+    status object would start every operator at PENDING again, whatever it has gone through)."""
+    P = ctx.P
+    rs = P.fn(PL, "Pipeline.runtime_status")
+    ctx.touch(rs)
+    g = cfg_of(rs, subst_env=False)
+    ws = attr_writes(P, "_runtime_status", include_mutation=False)
+    ctx.count_min("writers of Pipeline._runtime_status", len(ws), 2)
+    for w in ws:
+        who = w.fn.qual
+        if who == "Pipeline.__init__":
+            ok = isinstance(w.node, (ast.Assign, ast.AnnAssign)) and isinstance(w.node.value, ast.Constant) and w.node.value.value is None
+            ctx.ob(num, "K1", "a new pipeline has no runtime status yet", ok, w.fn, w.node, detail=stmt_text(w.node))
+        elif who == "Pipeline.runtime_status":
+            fs = g.facts_at(w.node)
+            ok = isinstance(w.node, ast.Assign) and norm.U(w.node.value) == "PipelineRuntimeStatus(self)" and norm.entails(fs, ("cmp", "is", "self._runtime_status", "None"))
+            ctx.ob(num, "K2", "the runtime status is created only while there is none (created once, on first use)", ok, w.fn, w.node,
+                   detail=f"{stmt_text(w.node)}; facts: {sorted(norm.show(x) for x in fs)}")
+        else:
+            ctx.ob(num, "K1", "the runtime status of a pipeline is never replaced or dropped after its creation", False, w.fn, w.node, detail=f"written in {w.fn.mod.rel}::{who}")
+    rets = [r for r in own_nodes(rs.node) if isinstance(r, ast.Return)]
+    ok = bool(rets) and all(r.value is not None and norm.U(r.value) == "self._runtime_status" for r in rets)
+    ctx.ob(num, "K6", "runtime_status() hands out that one object", ok, rs, rets[0] if rets else rs.node, detail=f"{[stmt_text(r) for r in rets]}")
+    # operators reach their state through their pipeline's status
+    for meth, want in (("transition", "self.pipeline.runtime_status().transition(self, {p})"), ("state", "self.pipeline.runtime_status().operator_states[self]")):
+        f = P.fn(PL, f"Operator.{meth}")
+        ctx.touch(f)
+        body = [s_ for s_ in f.node.body if not (isinstance(s_, ast.Expr) and isinstance(s_.value, ast.Constant))]
+        e = body[-1].value if body and isinstance(body[-1], (ast.Expr, ast.Return)) else None
+        exp = want.format(p=f.params()[1]) if "{p}" in want else want
+        ok = len(body) == 1 and e is not None and norm.U(e) == exp
+        ctx.ob(num, "K6", f"Operator.{meth}() goes to the runtime status of the operator's own pipeline", ok, f, body[-1] if body else f.node, detail=f"{norm.U(e) if e is not None else None}")
+
+
 def check_assignment_ctor(ctx, num=4):
     P = ctx.P
     f = P.fn(AS, "Assignment.__init__")
@@ -514,7 +549,13 @@ def run(ctx):
     check_transition_fn(ctx, 2)
     check_writers(ctx, 3)
     check_counts_init(ctx, 3)
+    check_status_identity(ctx, 3)
     check_assignment_ctor(ctx, 4)
     check_container_factory(ctx, 5)
     check_suffix_slices(ctx, 6)
     check_op_idx(ctx, 7)
+    # "an operator belongs to at most one live container": operators are handed back (PENDING / FAILED / COMPLETED) exactly when their
+    # container leaves the pool's lists; a container that hands its operators back but stays listed would share them with the next one
+    from . import pool as _pool
+    _pool.ob_moves_classified(ctx, 8)
+    _pool.ob_deltas(ctx, 8, amounts=False, conditions=True)
